@@ -550,6 +550,12 @@ pub fn gen_project(rng: &mut Rng, knobs: &ProjectKnobs) -> Project {
         None
     };
     let luau = bundle.as_deref() == Some("luau");
+    if bundle.is_some() && rng.chance(1, 8) {
+        // a type-heavy bundle: several inlined modules export the same type names
+        for s in sources.iter_mut() {
+            s.body_index = *rng.pick(corpus::TYPE_BODIES);
+        }
+    }
     let convert = bundle.is_none() && knobs.allow_bundle && !input_is_file && rng.chance(1, 6);
     let mut data: Vec<(String, String)> = Vec::new();
     if bundle.is_some() || convert {
